@@ -13,6 +13,12 @@ RULES = {
 }
 CONTROL_REV = '078b142'  # thorough tier: the rules must still report the defects found (and since fixed) on the original tree
 CONTROLS = [('C04.R3', 'AffTree::generic_composition_inplace#call:Tree::remove_child'), ('C04.R3', 'AffTree::infeasible_elimination#call:Tree::try_remove_child')]
+WRAPPERS = {
+    'AffTree::add_terminal': ('Tree::add_child_node(self.tree, node, label, AffContent::new(aff))', [], 'attaches a fresh node (state Indeterminate) holding aff under (node, label)'),
+    'AffTree::add_decision': ('Tree::add_child_node(self.tree, node, label, AffContent::new(aff))', [], 'attaches a fresh node (state Indeterminate) holding aff under (node, label)'),
+    'AffTree::add_child_node': ('Tree::add_child_node(self.tree, node, label, AffContent::new(aff))', [], 'attaches a fresh node (state Indeterminate) holding aff under (node, label)'),
+    'AffTree::from_tree': ('AffTree::AffTree{tree, dim, RefCell::new(Vec::new())}', [], 'wraps the tree with the given input dimension and an empty scratch cache'),
+}
 FLOORS = {'C04.R1': 8, 'C04.R2': 15, 'C04.R3': 5, 'C04.R4': 7}
 EXPLANATION = 'Input-dimension / common-output-dimension preservation, absence of the childless-decision state, absence of the merge assertion panic, for all histories.'
 DOES_NOT_DECIDE = 'panics reachable through unwrap/indexing inside ndarray/minilp; numeric content of node functions'
@@ -189,6 +195,7 @@ def r4(ctx):
 
 
 def run(ctx):
+    prune.check_wrappers(ctx, 'C04.R1', WRAPPERS)
     r1(ctx)
     # the cached feasibility state carries witness points; a state that travels from another tree (copied with a node's content) holds
     # points of that tree's input space, and the next elimination / pruned operation evaluates them against this tree's rows (shape panic):
